@@ -19,7 +19,8 @@ LEVEL_TEXT = ("for generated (BASE, THIS, OTHER) line triples incl. marker look-
               "branches with every combination of reprocess / show-base / cherrypick: conflict record <=> reference has a conflicting region, file bytes == "
               "reference output, helper files byte-exact, and take-this / take-other leave exactly THIS / OTHER with helpers and record gone")
 RULE = ("case = one line triple (lengths 0-8 over 6 plain lines + hostile marker-like lines; derived by edits, independent, or degenerate) in one file of "
-        "real BASE/THIS/OTHER branches (2a or git; plain or cherrypick history, or the file added on both sides with no BASE text; THIS committed or "
+        "real BASE/THIS/OTHER branches (2a or git; plain, forward-cherrypick or reverse-cherrypick (backing a revision out) history, or the file added on both "
+        "sides with no BASE text; OTHER may rename the file in the merged revision; THIS committed or "
         "uncommitted; sentinel-prefixed lines also in exactly one of the three texts inside a conflicting region); every option set "
         "(reprocess x show_base for merge3, reprocess for weave/lca) is one evaluation; non-trivial = text merge needed (all three texts pairwise "
         "different); distinct = (triple, format, history shape, merger, options)")
@@ -28,7 +29,8 @@ BUDGET_S = {"quick": 35, "thorough": 600}
 MIN_EVALS = {"quick": 400, "thorough": 10000}
 FLOORS = {"ref_conflict_iff_record": 300, "ref_bytes": 300, "helpers_exact": 60, "resolve_take_this": 40, "resolve_take_other": 40,
           "cant_reprocess_and_show_base": 30, "weave_record_iff_helpers": 60, "clean_no_helpers": 60,
-          "added_on_both_sides": 10, "resolve_with_helper_deleted_by_hand": 30}
+          "added_on_both_sides": 10, "resolve_with_helper_deleted_by_hand": 30,
+          "reverse_cherrypick": 15, "other_renamed": 10}
 ASSUMPTIONS = [
     "reference = merge3.Merge3 with patiencediff.PatienceSequenceMatcher (the matcher the merge3 merge type documents), same is_cherrypick / reprocess / base marker",
     "weave and lca mergers are judged only on: conflict record <=> helper files exist, .THIS/.OTHER byte-exact, resolve actions",
@@ -203,7 +205,7 @@ def _commit(wt, msg, n, git):
     return wt.commit(msg, **kw)
 
 
-def _build(ctx, fmt, name, B, T, O, cherry, uncommitted, added_both=False, rename_to=None):
+def _build(ctx, fmt, name, B, T, O, cherry, uncommitted, added_both=False, rename_to=None, reverse=False, other_rename=None):
     """Real branches.  Returns (this_dir, other_dir, base_revid or None, other_revid).
 
     added_both: the common ancestor has no such file; THIS and OTHER each add it at the same path (and, on bzr,
@@ -238,6 +240,18 @@ def _build(ctx, fmt, name, B, T, O, cherry, uncommitted, added_both=False, renam
         if not uncommitted:
             _commit(wt, "this", 2, git)
         return first, odir, None, other_rev
+    if reverse:
+        # one line of history: OTHER's text, then BASE's, then THIS's; backing the BASE revision out of THIS
+        # (merge -r base..other) has a base that is in THIS's ancestry but is not an ancestor of OTHER
+        _write(wt, name, to)
+        wt.add(adds)
+        other_rev = _commit(wt, "r-other", 0, git)
+        _write(wt, name, tb)
+        base_rev = _commit(wt, "r-base", 1, git)
+        _write(wt, name, tt)
+        if not uncommitted:
+            _commit(wt, "this", 2, git)
+        return first, first, base_rev, other_rev
     _write(wt, name, tt if cherry else tb)
     wt.add(adds)
     _commit(wt, "first", 0, git)
@@ -252,6 +266,8 @@ def _build(ctx, fmt, name, B, T, O, cherry, uncommitted, added_both=False, renam
         other_rev = _commit(owt, "y-other", 2, git)
         return first, odir, base_rev, other_rev
     _write(owt, name, to)
+    if other_rename:
+        owt.rename_one(name, other_rename)  # OTHER renames the file in the same revision as its text change
     other_rev = _commit(owt, "other", 1, git)
     _write(wt, name, tt)
     if rename_to:
@@ -354,30 +370,42 @@ def case(ctx):
     B, T, O, meta = gen_triple(rng, ctx.tier)
     fmt = "git" if rng.random() < 0.3 else "2a"
     git = fmt == "git"
-    cherry = rng.random() < 0.3
+    hr = rng.random()
+    cherry = hr < 0.22              # forward cherrypick: BASE is not an ancestor of THIS
+    reverse = 0.22 <= hr < 0.40     # reverse cherrypick: BASE is in THIS's ancestry but not an ancestor of OTHER
     uncommitted = (not cherry) and rng.random() < 0.25
-    added_both = (not cherry) and rng.random() < 0.14
+    added_both = (not cherry) and (not reverse) and rng.random() < 0.14
     if added_both:
         B = []  # no BASE text at all: the file is added on both sides
     name = rng.choice(NAMES)
     # THIS also renamed the file, uncommitted (file ids only: a path-based tree would see a deletion plus an unrelated new file)
-    rename_to = name + "-moved" if (uncommitted and not added_both and not git and rng.random() < 0.3) else None
+    rename_to = name + "-moved" if (uncommitted and not added_both and not reverse and not git and rng.random() < 0.3) else None
+    # OTHER renamed the file in the revision being merged (file ids only, as above; not together with a rename in THIS)
+    other_rename = name + "-renamed" if (not cherry and not reverse and not added_both and not git and not rename_to and rng.random() < 0.3) else None
     tb, tt, to = b"".join(B), b"".join(T), b"".join(O)
     desc = {"base": [x.decode("latin-1") for x in B], "this": [x.decode("latin-1") for x in T], "other": [x.decode("latin-1") for x in O],
-            "format": fmt, "cherrypick": cherry, "this_uncommitted": uncommitted, "added_on_both_sides": added_both, "name": name, "this_renamed_to": rename_to, **meta}
+            "format": fmt, "cherrypick": cherry, "this_uncommitted": uncommitted, "added_on_both_sides": added_both, "name": name, "this_renamed_to": rename_to,
+            "reverse_cherrypick": reverse, "other_renamed_to": other_rename, **meta}
     ctx.info["case"] = desc
     try:
-        tdir, odir, base_rev, other_rev = _build(ctx, fmt, name, B, T, O, cherry, uncommitted, added_both, rename_to)
+        tdir, odir, base_rev, other_rev = _build(ctx, fmt, name, B, T, O, cherry, uncommitted, added_both, rename_to, reverse, other_rename)
     except errors.BzrError as e:
         ctx.discard("build:%s" % type(e).__name__)
     if rename_to:
-        name = rename_to  # from here on `name` is the file's path in THIS, where the merge result and the helpers belong
+        name = rename_to  # the file's path in THIS, where the merge result and the helpers belong
         ctx.count("this_renamed_uncommitted")
+    this_name = name      # where THIS has the file before the merge
+    if other_rename:
+        name = other_rename  # ... and where everything belongs after it: only OTHER renamed, so its name wins
+        ctx.count("other_renamed")
+    if reverse:
+        ctx.count("reverse_cherrypick")
     # (a file absent from BASE differs from both sides whatever they hold, even if one of them is empty)
     needs_text_merge = tt != to and (added_both or (tb != tt and tb != to))
     ctx.hist("flavour:" + meta["flavour"])
     ctx.hist("shape:" + meta["shape"])
-    ctx.hist("fmt:%s%s%s%s" % (fmt, ":cherrypick" if cherry else "", ":uncommitted" if uncommitted else "", ":added-on-both-sides" if added_both else ""))
+    ctx.hist("fmt:%s%s%s%s%s" % (fmt, ":cherrypick" if cherry else (":reverse-cherrypick" if reverse else ""), ":uncommitted" if uncommitted else "",
+                                 ":added-on-both-sides" if added_both else "", ":other-renamed" if other_rename else ""))
     if added_both:
         ctx.count("added_on_both_sides")
 
@@ -397,14 +425,21 @@ def case(ctx):
         shutil.copytree(tdir, mdir, symlinks=True)
         wt = WorkingTree.open(mdir)
         with wt.lock_read():
-            fid = wt.path2id(name) if not git else None
+            fid = wt.path2id(this_name) if not git else None
         before = observe.snap_disk(mdir)
         opts = {"merger": mt.__name__, "reprocess": reprocess, "show_base": show_base}
         detail = dict(desc, **opts)
-        sig = (desc["base"], desc["this"], desc["other"], fmt, cherry, uncommitted, added_both, bool(rename_to), mt.__name__, reprocess, show_base)
+        sig = (desc["base"], desc["this"], desc["other"], fmt, cherry, reverse, uncommitted, added_both, bool(rename_to), bool(other_rename),
+               mt.__name__, reprocess, show_base)
         ref3 = mt is Merge3Merger
         try:
             cooked, merger = _merge(wt, odir, mt, base_rev, other_rev, reprocess, show_base)
+        except errors.CannotReverseCherrypick:
+            # documented refusal: the weave and lca merge types cannot back a change out
+            ctx.hist("refused:CannotReverseCherrypick:" + mt.__name__)
+            ctx.check(reverse and not ref3, keyf("cannot-reverse-cherrypick:unexpected"),
+                      "CannotReverseCherrypick from %s, reverse=%s" % (mt.__name__, reverse), detail)
+            continue
         except CantReprocessAndShowBase:
             ctx.count("cant_reprocess_and_show_base")
             ctx.check(reprocess and show_base, keyf("cant-reprocess-and-show-base:spurious"), "raised without both options", detail)
@@ -439,7 +474,7 @@ def case(ctx):
                   "do_merge returned %r, tree records %r" % (cooked, confl), detail)
         ctx.check(got is not None and got[0] == "file", keyf("file-missing-after-merge"), "file is %r after the merge" % (got,), detail, stop=True)
         if ref3:
-            ref_conflict, ref_bytes = reference(B, T, O, cherry, reprocess_ref, show_base_ref)
+            ref_conflict, ref_bytes = reference(B, T, O, cherry or reverse, reprocess_ref, show_base_ref)
             ctx.count("ref_conflict_iff_record")
             if bool(texts) != ref_conflict:
                 ctx.fail(keyf("record-without-conflicting-region" if texts else "conflicting-region-without-record"),
